@@ -9,6 +9,7 @@
 
 mod c11;
 mod c18;
+mod clock;
 mod dict;
 mod gen;
 mod minimise;
@@ -93,6 +94,9 @@ pub struct ReplayFile {
     pub sched: Option<SchedSpec>,
     #[serde(default, skip_serializing_if = "Option::is_none")]
     pub aisle: Option<c11::AisleScenario>,
+    /// a chain of nested parses (class `depth-dependence`)
+    #[serde(default, skip_serializing_if = "Option::is_none")]
+    pub depth: Option<c18::DepthCase>,
     pub violations: Vec<Violation>,
     #[serde(default)]
     pub minimised: bool,
@@ -131,6 +135,10 @@ struct WorkerOut {
     maps_created: u64,
     /// shadow build: runs discarded because a panic unwound inside the simulation
     tainted_runs: u64,
+    /// clock seam: is the shim loaded; clock reads / sleeps the library made under simulated time
+    clock_seam: bool,
+    clock_reads: u64,
+    clock_sleeps: u64,
     violations: Vec<serde_json::Value>,
     samples: Vec<serde_json::Value>,
     wall_s: f64,
@@ -175,6 +183,7 @@ fn init_process() {
     }
     sim::install_silent_panic_hook();
     sim::install_subscriber();
+    c18::calibrate_clock_overhead();
 }
 
 fn c18_worker(a: &Args) -> i32 {
@@ -198,7 +207,7 @@ fn c18_worker(a: &Args) -> i32 {
     let rev = a.str("ref-order", "fwd") == "rev";
     let progress = a.kv.get("progress").cloned();
     let mut refsf = a.kv.get("dump-refs").map(|p| std::io::BufWriter::new(std::fs::File::create(p).unwrap_or_else(|e| die(&format!("{p}: {e}")))));
-    let mut out = WorkerOut { property: "C18".into(), ..Default::default() };
+    let mut out = WorkerOut { property: "C18".into(), clock_seam: clock::available(), ..Default::default() };
     let mut dumpf = dump.map(|p| std::io::BufWriter::new(std::fs::File::create(&p).unwrap_or_else(|e| die(&format!("{p}: {e}")))));
     let mut done_indexes: Vec<u64> = Vec::new();
     // shadow build: a run during which a panic unwound inside the simulation is discarded and the
@@ -258,6 +267,7 @@ fn c18_worker(a: &Args) -> i32 {
                 scenario: Some(sc.clone()),
                 sched: None,
                 aisle: None,
+                depth: None,
                 violations: rp.violations.clone(),
                 minimised: false,
                 notes: vec![],
@@ -289,6 +299,8 @@ fn c18_worker(a: &Args) -> i32 {
                 scheds = c18::schedules_for(rs, nsched, est);
             }
             out.executions += 1;
+            out.clock_reads += st.clock_reads;
+            out.clock_sleeps += st.clock_sleeps;
             out.steps += st.steps;
             out.switches += st.switches;
             out.ops += st.ops;
@@ -327,6 +339,7 @@ fn c18_worker(a: &Args) -> i32 {
                     // the recorded choices replay this execution without the generating scheduler
                     sched: Some(SchedSpec::List { choices: st.choices.clone() }),
                     aisle: None,
+                depth: None,
                     violations: viol.clone(),
                     minimised: false,
                     notes: vec![format!("found under {sched:?}")],
@@ -394,6 +407,92 @@ fn c18_worker(a: &Args) -> i32 {
     }
 }
 
+/// Chains of nested parses (see `c18::DepthCase`): every run is one chain; every fourth run goes
+/// to the full `--max-depth`, so every depth up to it is a depth some parse *starts* at.
+fn depth_worker(a: &Args) -> i32 {
+    let t0 = std::time::Instant::now();
+    let seed = a.u64("seed", 1);
+    let runs = a.u64("runs", 64);
+    let worker = a.u64("worker", 0);
+    let workers = a.u64("workers", 1).max(1);
+    let max_depth = a.u64("max-depth", 300) as u32;
+    let out_path = a.str("out", "");
+    let replay_dir = a.str("replay-dir", "/verif/replays");
+    let pool = Pool::load(&a.str("repo", "/repo"));
+    let small: Vec<&String> = pool.inputs.iter().filter(|s| s.len() < 500).collect();
+    let medium: Vec<&String> = pool.inputs.iter().filter(|s| s.len() < 4000).collect();
+    let mut violations: Vec<serde_json::Value> = Vec::new();
+    let mut parses = 0u64;
+    let mut chains = 0u64;
+    let mut deepest = 0u32;
+    let mut full = 0u64;
+    let mut hashes: Vec<u64> = Vec::new();
+    let mut samples: Vec<serde_json::Value> = Vec::new();
+    let mut by_flavour: BTreeMap<String, u64> = BTreeMap::new();
+    let mut i = worker;
+    while i < runs {
+        let mut r = rng::Rng::new(mix3(seed, 0xDE97, i));
+        let flavour = ["iter", "validator", "ref_check"][(i % 3) as usize].to_string();
+        let depth = if i % 4 == 0 {
+            max_depth
+        } else {
+            (*r.pick(&[1u32, 2, 3, 5, 8, 16, 31, 33, 63, 64, 65, 100, 127, 129, 200, 255, 257])).min(max_depth)
+        };
+        let dc = c18::DepthCase {
+            cfg: scenario::gen_cfg(&mut r),
+            outer: if small.is_empty() { ">> a: b\nmix @x{1%g} and @@y{}\n".to_string() } else { (*r.pick(&small)).clone() },
+            target: if medium.is_empty() { "@a{1} ~{2%min}\n".to_string() } else { (*r.pick(&medium)).clone() },
+            depth,
+            flavour: flavour.clone(),
+        };
+        cooklang::verif_seam::reseed(mix3(seed, 0xDE98, i));
+        let (v, n, reached) = c18::run_depth_case_reached(&dc);
+        parses += n;
+        chains += 1;
+        deepest = deepest.max(reached);
+        if reached == depth {
+            full += 1;
+        }
+        *by_flavour.entry(flavour).or_insert(0) += 1;
+        hashes.push(rng::fnv(serde_json::to_string(&dc).unwrap().as_bytes()));
+        if samples.is_empty() {
+            samples.push(serde_json::json!({"run_index": i, "depth_case": &dc}));
+        }
+        if !v.is_empty() {
+            let rf = ReplayFile {
+                property: "C18".into(),
+                class: v[0].class.clone(),
+                provenance: None,
+                prefix_run_indexes: vec![],
+                scenario: None,
+                sched: None,
+                aisle: None,
+                depth: Some(dc.clone()),
+                violations: v.clone(),
+                minimised: false,
+                notes: vec![],
+            };
+            let p = write_replay(&replay_dir, &format!("C18-depth-{i}"), &rf);
+            violations.push(serde_json::json!({"class": rf.class, "replay": p, "detail": v[0].detail, "key": v[0].key, "phase": v[0].phase}));
+            if violations.len() >= 3 {
+                break;
+            }
+        }
+        i += workers;
+    }
+    if !out_path.is_empty() {
+        write_hashes(&out_path, "nontrivial", &hashes);
+    }
+    let js = serde_json::json!({"property": "C18", "mode": "depth", "chains": chains, "parses": parses, "deepest": deepest, "chains_reaching_their_depth": full, "by_flavour": by_flavour,
+        "violations": violations, "samples": samples, "wall_s": t0.elapsed().as_secs_f64()});
+    if out_path.is_empty() {
+        println!("{js}");
+    } else {
+        std::fs::write(&out_path, js.to_string()).unwrap_or_else(|e| die(&format!("{out_path}: {e}")));
+    }
+    if violations.is_empty() { 0 } else { 1 }
+}
+
 fn replay(a: &Args) -> i32 {
     let path = a.pos.get(1).cloned().unwrap_or_else(|| die("replay needs a file"));
     let text = std::fs::read_to_string(&path).unwrap_or_else(|e| die(&format!("{path}: {e}")));
@@ -426,6 +525,11 @@ pub fn replay_file(rf: &ReplayFile, a: &Args) -> (Vec<Violation>, Vec<String>) {
     if rf.property == "C11" {
         let sc = rf.aisle.clone().unwrap_or_else(|| die("C11 replay without aisle scenario"));
         let (v, _) = c11::execute(&sc);
+        return (v, log);
+    }
+    if let Some(dc) = &rf.depth {
+        let (v, n) = c18::run_depth_case(dc);
+        log.push(format!("executed: a chain of {} nested parses ({n} parses in all)", dc.depth));
         return (v, log);
     }
     // a file without a scenario (hang reports) names the run by its provenance only
@@ -509,6 +613,7 @@ fn dispatch(cmd: &str, a: &Args) -> i32 {
     }
     match cmd {
         "c18" => c18_worker(a),
+        "depth" => depth_worker(a),
         "c11" => c11::worker(a),
         "replay" => replay(a),
         "minimise" => minimise::run(a),
